@@ -97,8 +97,9 @@ func (c *Collection) StartDCPFeed(
 	}
 	feed.events.init()
 
+	var startCas uint64
 	if args.Backfill != sgbucket.FeedNoBackfill {
-		startCas := args.Backfill
+		startCas = args.Backfill
 		if args.Backfill == sgbucket.FeedResume {
 			if args.CheckpointPrefix == "" {
 				return fmt.Errorf("feed's Backfill is FeedResume but no CheckpointPrefix given")
@@ -110,9 +111,17 @@ func (c *Collection) StartDCPFeed(
 		}
 
 		debug("%s starting backfill from CAS 0x%x", feed, startCas)
+	}
+
+	// The backfill snapshot and the registration for live events happen under the bucket
+	// mutex (which every write transaction holds), so no write can commit in between and
+	// be missed by both.
+	c.bucket.mutex.Lock()
+	if args.Backfill != sgbucket.FeedNoBackfill {
 		feed.events.push(&sgbucket.FeedEvent{Opcode: sgbucket.FeedOpBeginBackfill})
-		err := c.enqueueBackfillEvents(startCas, args.KeysOnly, &feed.events)
+		err := c._enqueueBackfillEvents(c.bucket._db(), startCas, args.KeysOnly, &feed.events)
 		if err != nil {
+			c.bucket.mutex.Unlock()
 			return err
 		}
 		debug("%s ended backfill", feed)
@@ -123,21 +132,24 @@ func (c *Collection) StartDCPFeed(
 		feed.events.push(nil) // push an eof
 	} else {
 		// Register the feed with the collection for future notifications:
-		c.bucket.mutex.Lock()
 		c.bucket.collectionFeeds[c.DataStoreNameImpl] = append(c.bucket.collectionFeeds[c.DataStoreNameImpl], feed)
-		c.bucket.mutex.Unlock()
 	}
+	c.bucket.mutex.Unlock()
 	go feed.run()
 	return nil
 }
 
 func (c *Collection) enqueueBackfillEvents(startCas uint64, keysOnly bool, q *eventQueue) error {
+	return c._enqueueBackfillEvents(c.db(), startCas, keysOnly, q)
+}
+
+func (c *Collection) _enqueueBackfillEvents(db queryable, startCas uint64, keysOnly bool, q *eventQueue) error {
 	sql := fmt.Sprintf(`SELECT key, %s, %s, isJSON, cas, tombstone, revSeqNo, exp FROM documents
 						WHERE collection=?1 AND cas >= ?2 
 						ORDER BY cas`,
 		ifelse(keysOnly, `null`, `value`),
 		ifelse(keysOnly, `null`, `xattrs`))
-	rows, err := c.db().Query(sql, c.id, startCas)
+	rows, err := db.Query(sql, c.id, startCas)
 	if err != nil {
 		return err
 	}
